@@ -757,7 +757,7 @@ func CanonicalIsomorphAllocated(n, m int, neighbours [][]int, op *CanonicalOrder
 
 				//Do the same for the currentBest
 				//Heuristic 2
-				if count > 0 && ints.HasPrefix(currentBestPath, path[:len(path)-1]) {
+				if count > 0 && !ints.HasPrefix(firstLeafPath, path[:len(path)-1]) && ints.HasPrefix(currentBestPath, path[:len(path)-1]) {
 					if currentBestOrbits[choiceElement] >= 0 {
 						skipDeage = true
 						continue jLoop
